@@ -855,9 +855,9 @@ class Engine:
         if isinstance(obj, SObj):
             if attr in obj.fields:
                 return obj.fields[attr]
-            if attr == "__class__":
+            if attr == "__class__" and obj.cls is not None:
                 return SClassRef(obj.cls)
-            la = obj.cls.lookup_attr(attr)
+            la = obj.cls.lookup_attr(attr) if obj.cls is not None else None
             if la is not None and la[0] == "method":
                 m = la[1]
                 if m.kind == "getter":
